@@ -24,7 +24,9 @@ AsyncTrait(m) == m \in {"trait-ref-at", "di-dyn-at", "trait-self-at", "di-static
 \* mockall: the `mockall` option is also given (its derivation is test-gated; the async rewrite must not depend on it)
 \* recv: the receiver of the entraited trait's async method (`&self` / `self`): a by-value receiver moves the Impl<T> into the
 \* future, which must still be Send by default (the implementation's T gets a Send bound, since a "fix:" commit)
-Inputs == { i \in [mode : Modes, ret : Rets, nosend : BOOLEAN, atargs : BOOLEAN, mockall : BOOLEAN, recv : {"ref", "value"}] :
+\* valued: the ?Send option is written with its value, `?Send = true` (nosend) / `?Send = false` (~nosend): the same meaning as the bare / absent option
+Inputs == { i \in [mode : Modes, ret : Rets, nosend : BOOLEAN, atargs : BOOLEAN, mockall : BOOLEAN, recv : {"ref", "value"}, valued : BOOLEAN] :
+            /\ (i.valued => ~AsyncTrait(i.mode) /\ ~i.mockall /\ i.recv = "ref" /\ i.ret \in {"unit", "owned"})
             /\ (i.recv = "value" => i.mode \in {"trait-self", "trait-self-at"} /\ i.ret \in {"unit", "owned"} /\ ~i.mockall)
             /\ (i.atargs => AsyncTrait(i.mode))
             /\ (i.mockall => i.mode \in {"fn", "mod", "trait-self"} /\ i.ret \in {"unit", "owned"})
